@@ -70,6 +70,13 @@ fn check_run(cx: &mut Cx, data: &[u8], cuts: &[usize], reply: &str)
 	cx.report.case(if data.is_empty() {None} else {Some(&imp_s)});
 	cx.report.compare("model.crc.run", &input, reply, &imp_s);
 	let want = bitwise(0xFFFF_FFFF, data);
+	// every public way to obtain a fresh state must start from the same register
+	let mut d = Crc::default();
+	d.update_slice(data);
+	if d.get_value() != want
+	{
+		cx.report.oracle_fail(input.clone(), format!("CRC-32/MPEG-2 of the string is {want:08x}, a fresh Crc::default() gives {:08x}", d.get_value()));
+	}
 	if whole != want
 	{
 		cx.report.oracle_fail(input.clone(), format!("CRC-32/MPEG-2 of the string is {want:08x}, Crc gives {whole:08x}"));
